@@ -65,9 +65,22 @@ pub fn openssl_csrs_with_keys(rng: &mut Rng, n: usize) -> Vec<(Base, PKey<Privat
 	];
 	let mut out = Vec::new();
 	let mut idx = 0;
-	while out.len() < n {
-		let (kn, key) = &keys[idx % keys.len()];
-		let (dn, md) = if kn.starts_with("ed") { ("none", null_md()) } else { digests[(idx / keys.len()) % digests.len()] };
+	// first every pairing rcgen supports x every subject variant, then the pairings it never produces itself
+	let supported: [(&str, &str); 6] = [("p256", "sha256"), ("p384", "sha384"), ("rsa2048", "sha256"), ("rsa2048", "sha384"), ("rsa2048", "sha512"), ("ed25519", "none")];
+	let mut plan: Vec<(usize, usize, u64)> = Vec::new();
+	for (k, d) in supported {
+		for variant in 0..6u64 {
+			let ki = keys.iter().position(|x| x.0 == k).unwrap();
+			let di = digests.iter().position(|x| x.0 == d).unwrap_or(0);
+			plan.push((ki, di, variant));
+		}
+	}
+	let mut guard_iters = 0;
+	while out.len() < n && guard_iters < n * 4 {
+		guard_iters += 1;
+		let (ki, di, planned_variant) = if idx < plan.len() { plan[idx] } else { (idx % keys.len(), (idx / keys.len()) % digests.len(), ((idx as u64) * 7 + (idx / keys.len()) as u64) % 6) };
+		let (kn, key) = &keys[ki];
+		let (dn, md) = if kn.starts_with("ed") { ("none", null_md()) } else { digests[di] };
 		idx += 1;
 		let mut b = match X509ReqBuilder::new() {
 			Ok(b) => b,
@@ -75,7 +88,7 @@ pub fn openssl_csrs_with_keys(rng: &mut Rng, n: usize) -> Vec<(Base, PKey<Privat
 		};
 		let mut nb = X509NameBuilder::new().unwrap();
 		// deterministic cycle, so that every supported key/digest pairing meets every subject variant
-		let variant = ((idx as u64) * 7 + (idx / keys.len()) as u64) % 6;
+		let variant = planned_variant;
 		let _ = rng.below(6);
 		let _ = nb.append_entry_by_text("CN", &gen_host(rng));
 		if variant == 1 {
@@ -527,7 +540,7 @@ pub fn run(ctx: &Ctx, pool: &[PoolKey]) {
 		}
 	}
 	let n_rcgen = bases.len();
-	let signed = openssl_csrs_with_keys(&mut rng, ctx.scale(48, 400) as usize);
+	let signed = openssl_csrs_with_keys(&mut rng, ctx.scale(84, 400) as usize);
 	bases.extend(signed.iter().map(|x| Base { label: x.0.label.clone(), der: x.0.der.clone() }));
 	ctx.note(format!("{} base requests ({} by rcgen, {} by OpenSSL)", bases.len(), n_rcgen, bases.len() - n_rcgen));
 	let donors: Vec<Vec<mutate::Node>> = bases.iter().filter_map(|b| mutate::parse_tree(&b.der, 0)).collect();
@@ -541,7 +554,9 @@ pub fn run(ctx: &Ctx, pool: &[PoolKey]) {
 				}
 			}
 			let case = CaseId::new("base", ctx.seed, i as u64);
+			let before = ctx.get_count("eval:accepted");
 			offer(ctx, &env, &case, &b.label, &b.der);
+			ctx.note(format!("base {}: {}", b.label, if ctx.get_count("eval:accepted") > before { "accepted" } else { "rejected" }));
 			ctx.count("dist:base_requests");
 			ctx.sample(|| format!("base: {} ({} bytes)", b.label, b.der.len()));
 		}
